@@ -16,6 +16,21 @@ MISSED_FIRST = {  # the property's own check missed it before it was strengthene
     "C13-a": "C13: sparse amplitude vectors (whole low-degree blocks zero); before that only the broken translation was reported (no-failing-input-found)",
     "C13-b": "C13: exact 3-D volume with sizeable amplitudes against an independent quadrature (third-order terms)",
     "C16-b": "C16: requested wave numbers starting at 0 / unsorted / repeated / single, with add_zero",
+    "C17-d": "C17: droplet counting on grids with mixed periodicity (elongated droplets cut by a periodic boundary that follows a non-periodic axis)",
+    "C10-d": "C10: polydisperse traps (nearest centre is a separated satellite while two large droplets overlap)",
+    "C10-e": "C10: exactly coincident centres with different radii in the neighbour-distance check",
+    "C20-d": "C20: vanished droplets and copy(min_radius=0) in the random and exhaustive op streams; exact statistics model",
+    "C20-e": "C20: nearest-time lookup with times in any order / repeated; exact model `nearestIdx` (theorem for unsorted lists)",
+    "C09-d": "C09: sharp droplets with support points exactly on their surface; before that only the broken obligation was reported",
+    "C14-b": "C14: time axes that start negative and pass through exactly 0",
+    "C14-c": "C14: source selection (None / 0 / k / callable) on field collections, modelled in Lean (`extract`)",
+    "C19-b": "C19: sub-resolution cluster on an anisotropic grid (nothing to fit) in the table; C04: promotion on that path",
+    "C20-c": "C20: copy construction of tracks / time courses; shared time lists detected in the dump",
+    "C02-b": "C02: periodic cylinders with on-axis components across the boundary and off-axis z-spanning tubes (this stream also exposed D19)",
+    "C08-b": "C08: collections reached through histories that leave a stale declared layout; read-back exceptions reported as failures",
+    "C15-b": "C15: more candidates than 4 x workers (11, 13)",
+    "C15-c": "C15: repetition after analyses with other solver settings (history independence)",
+    "C05-b": "C05: corner droplets on grids with unequal cell counts where the main piece is the upper cluster of both merges",
     "C17-b": "C17: ring+blob fields (overlap filter decides the count), shifts that put the common centre on a periodic boundary; known finding narrowed to winding components",
 }
 rows = []
